@@ -42,9 +42,9 @@ def prepare(d, text, prev, ref_cur, ref_old):
     return dd
 
 
-def rebuild_and_compare(chk, bin_, dd, ref_cur, desc, fault_hit):
+def rebuild(bin_, dd, ref_cur):
+    """the later, non-forced build after the fault (runs inside the worker threads)"""
     p = os.path.join(dd, "g.lalrpop")
-    state_after_fault = None
     rs = os.path.join(dd, "g.rs")
     if os.path.exists(rs):
         data = open(rs, "rb").read()
@@ -52,18 +52,22 @@ def rebuild_and_compare(chk, bin_, dd, ref_cur, desc, fault_hit):
     else:
         state_after_fault = "absent"
     rc, out, err, to = core.run([bin_, p], timeout=120)
+    got = open(rs, "rb").read() if os.path.exists(rs) else None
+    return {"state": state_after_fault, "rc": rc, "timeout": to, "ok": rc == 0 and got == ref_cur,
+            "got_len": None if got is None else len(got), "stderr": err.decode(errors="replace")[-400:]}
+
+
+def judge(chk, r, ref_cur, desc, fault_hit):
     chk.evaluations += 1
-    if to:
+    if r["timeout"]:
         chk.inconclusive += 1
         return
-    ok = rc == 0 and os.path.exists(rs) and open(rs, "rb").read() == ref_cur
-    chk.count("after_fault_output_" + state_after_fault.split("(")[0])
-    if not ok:
-        got = open(rs, "rb").read() if os.path.exists(rs) else None
+    chk.count("after_fault_output_" + r["state"].split("(")[0])
+    if not r["ok"]:
         chk.violation({"kind": "stale_or_truncated_output_kept", "sig": desc.split(" k=")[0].split(" b=")[0],
                        "summary": "%s: after the fault the output was %s; the non-forced rebuild (rc=%s) left %s" % (
-                           desc, state_after_fault, rc, "no output" if got is None else "%d bytes (expected %d)" % (len(got), len(ref_cur))),
-                       "fault": desc, "stderr": err.decode(errors="replace")[-400:]})
+                           desc, r["state"], r["rc"], "no output" if r["got_len"] is None else "%d bytes (expected %d)" % (r["got_len"], len(ref_cur))),
+                       "fault": desc, "stderr": r["stderr"]})
     elif fault_hit:
         chk.nontriv(desc)
 
@@ -157,14 +161,18 @@ def run(tier, seed):
         # (a run that hides a short write behind exit 0 is exactly what must be caught)
         return (dd, "RLIMIT_FSIZE %s b=%d prev=%s report=%s" % (x, v, prev, report), rc != 0 or v < size)
 
-    recs = core.tmap(do, points)
-    for dd, desc, hit in recs:
+    def do2(pt):
+        dd, desc, hit = do(pt)
+        r = rebuild(bin_, dd, ref_cur) if hit else None
+        shutil.rmtree(dd, ignore_errors=True)
+        return desc, hit, r
+    recs = core.tmap(do2, points)
+    for desc, hit, r in recs:
         if hit:
             chk.count("faults_injected")
-            rebuild_and_compare(chk, bin_, dd, ref_cur, desc, hit)
+            judge(chk, r, ref_cur, desc, hit)
         else:
             chk.count("runs_completed_without_fault")
-        shutil.rmtree(dd, ignore_errors=True)
     chk.extra["output_size_bytes"] = size
     chk.extra["byte_offsets_tried"] = len(offs)
     # exhaustive = every syscall boundary of the traced families AND every byte offset
